@@ -294,7 +294,7 @@ void run_t(vf::Ctx& c)
             for (auto const* pair : {&cp, &ep})
             {
                 auto const& other = (pair == &cp) ? cz : ez;
-                VF_CHECK(c, pair->calls() == other.calls() && pair->finite_calls() == other.finite_calls() && pair->non_zero_calls() == other.non_zero_calls() + poisoned_so_far,
+                VF_CHECK(c, pair->calls() == calls_so_far && pair->calls() == other.calls() && pair->finite_calls() == other.finite_calls() && pair->non_zero_calls() == other.non_zero_calls() + poisoned_so_far,
                     "C06:combination-counters", "after " << j << " iterations the combination reports calls / non-zero / finite = " << pair->calls() << " / " << pair->non_zero_calls() << " / "
                     << pair->finite_calls() << " in the poisoned run and " << other.calls() << " / " << other.non_zero_calls() << " / " << other.finite_calls() << " in the zeroed run ("
                     << poisoned_so_far << " poisoned evaluations)");
